@@ -125,10 +125,25 @@ ring_done(struct mmgr *mm, IMB_JOB *job, void *arg)
         }
 }
 
+/* calls made between IMB_GET_NEXT_JOB and IMB_SUBMIT_JOB of the next submission (the statement covers ANY call sequence:
+ * the offered slot must stay the one that submit takes); 0 = none */
+static struct rng *g_between;
 static void
 sub(struct rctx *c, int kind, int nocheck)
 {
         IMB_JOB *j = mm_get_next_job(c->mm);
+        if (g_between && rng_below(g_between, 4) == 0) {
+                int n = 1 + (int) rng_below(g_between, 3);
+                for (int i = 0; i < n; i++) {
+                        if (rng_below(g_between, 2))
+                                mm_get_completed_job(c->mm);
+                        else
+                                mm_flush_job(c->mm);
+                }
+                if (rng_below(g_between, 3) == 0)
+                        mm_queue_size(c->mm);
+                cov_count("calls_between_get_next_and_submit", (uint64_t) n);
+        }
         fill(c, j, kind);
         mm_submit_job(c->mm, nocheck && kind != K_REJ, kind == K_REJ ? IMB_ERR_JOB_CIPH_LEN : 0);
 }
@@ -226,6 +241,7 @@ script_job_random(struct rctx *c, struct rng *r, int ncalls)
         unsigned p_park = rng_below(r, 30), p_rej = rng_below(r, 10), p_flush = rng_below(r, 25),
                  p_gc = rng_below(r, 30);
         int nocheck = (int) rng_below(r, 2);
+        g_between = rng_below(r, 2) ? r : NULL;
         for (int i = 0; i < ncalls; i++) {
                 unsigned x = rng_below(r, 100);
                 if (x < p_flush)
@@ -243,8 +259,9 @@ script_job_random(struct rctx *c, struct rng *r, int ncalls)
                         mm_queue_size(c->mm);
         }
         drain(c);
-        cov_hit("C05", "%s|job|random|park%u|rej%u|flush%u|gc%u|nocheck%d|full%d|wrap%d", variant_name(c->mm->variant),
-                p_park / 10, p_rej / 4, p_flush / 8, p_gc / 10, nocheck, c->mm->n_full > 0, c->mm->n_wraps > 0);
+        cov_hit("C05", "%s|job|random|park%u|rej%u|flush%u|gc%u|nocheck%d|full%d|wrap%d|between%d", variant_name(c->mm->variant),
+                p_park / 10, p_rej / 4, p_flush / 8, p_gc / 10, nocheck, c->mm->n_full > 0, c->mm->n_wraps > 0, g_between != NULL);
+        g_between = NULL;
 }
 
 /* ---- burst API histories */
